@@ -161,6 +161,12 @@ def draw_cfg(rng, density):
         for k in list(d):
             if k in BRACE_BLANK_OPTS or (k.startswith('nl_') and reg[k]['type'] == 'num' and k not in ('nl_max', 'nl_start_of_file_min', 'nl_end_of_file_min')):
                 d.pop(k)           # count options that explicitly request blank lines (possibly next to a brace) stay at default
+    if d.get('nl_max') == '1' or d.get('eat_blanks_after_open_brace') == 'true' or d.get('eat_blanks_before_close_brace') == 'true':
+        # nl_before_* / nl_after_* options (add/remove/force or boolean) request a blank line next to a construct: with nl_max = 1 (no
+        # blank line at all) or next to a brace under eat_blanks_* they ask for more than is allowed - the statement's proviso
+        for k in list(d):
+            if k.startswith(('nl_before_', 'nl_after_', 'nl_around_', 'nl_between_')):
+                d.pop(k)
     family.apply_exclusions(d, _EX)
     registry.fix_nl_max(d)
     # the file-edge minima are clamped too (they are blank-line count options within the meaning of the proviso)
